@@ -70,8 +70,16 @@ def run(chk):
     nin = rng.randint(1, 3)
     kind = kinds[i % len(kinds)]
     bumps = [j for j, v in enumerate(vars_) if v['col'] == 'counter' and rng.random() < 0.7] if kind != 'custom_vjp' else []
-    cases.append({'kind': kind, 'vars': vars_, 'nin': nin, 'poly': gen_poly(rng, nv + nin), 'bumps': bumps, 'xs': [rng.randint(-3, 3) for _ in range(nin)], 'ct': rng.randint(-3, 4),
-                  'tvars': tangents(rng, vars_), 'tins': [rng.randint(-2, 3) for _ in range(nin)],
+    poly, tv = gen_poly(rng, nv + nin), tangents(rng, vars_)
+    if kind == 'jvp' and (i // len(kinds)) % 2 == 0:
+      # every other jvp case: a tangent for a variable of a collection that is MUTABLE in the enclosing apply ('counter'), and an output that depends on it
+      vars_[0]['col'] = 'counter'
+      tv = [t for t in tangents(rng, vars_) if t[0] != 0] + [[0, rng.choice([-2, -1, 1, 2, 3])]]
+      tv += [[j, rng.randint(-2, 3)] for j, v in enumerate(vars_) if j != 0 and v['col'] == 'counter' and not any(t[0] == j for t in tv)]
+      tv.sort()
+      poly = ['add', poly, ['mul', ['var', 0], ['var', nv]]]
+    cases.append({'kind': kind, 'vars': vars_, 'nin': nin, 'poly': poly, 'bumps': bumps, 'xs': [rng.randint(-3, 3) for _ in range(nin)], 'ct': rng.randint(-3, 4),
+                  'tvars': tv, 'tins': [rng.randint(-2, 3) for _ in range(nin)],
                   'filter': gen_filter(rng), 'has_aux': kind in ('vjp', 'grad', 'value_and_grad') and rng.random() < 0.3,
                   'seq': [rng.choice(['direct', 'diff']) for _ in range(rng.randint(2, 4))], 'hdepth': rng.choice([1, 2, 3])})
   W = 12
